@@ -1145,7 +1145,7 @@ def bulk_judge(cfg, out, rc, err):
             what = ("sampleUniform returned true for a bound %r that is not above any focal distance: the state lies on a focal segment and has heuristic cost %r >= maxCost"
                     % (c, hc))
             cls = "degenerate-bound-success"
-        elif c < math.inf and not hc < c and P["kind"] == "crv" and cfg["sampler"] == "direct":
+        elif c < math.inf and not hc < c and P["kind"] == "crv" and cfg["sampler"] == "direct" and not R450:
             # F450: the informed sample (in a PHS, in bounds) is overwritten by a uniform draw of the same subspace in createFullState
             what = ("compound space with a single R^%d subspace: sampleUniform returned true with the in-bounds state %r of heuristic cost %r >= maxCost %r"
                     % (n, all_[:n], hc, c))
@@ -1676,7 +1676,7 @@ def run_sup(ck, hbin, cmpst, rng, orders=None, tag="sup"):
                         f = "successful sample outside the bounds: %r" % (x,)
                     elif not h < m["c"]:
                         f = "successful sample has heuristic cost %r >= maxCost %r" % (h, m["c"])
-                        if P["kind"] == "crv":
+                        if P["kind"] == "crv" and not R450:
                             # F450: on a compound space with ONE real-vector subspace createFullState overwrites the informed sample (which
                             # passed every test) with a uniform draw of the same subspace
                             fcls = "single-subspace-compound-overwritten"
@@ -2344,9 +2344,10 @@ MANIFEST = {
             "compound-space (SE2/SE3) sampling paths. Trusted: Lean kernel, the three standard axioms, the hand-written model outside what the correspondence "
             "explored, Eigen's SVD for n >= 3 (orthonormality, first column and det = +1 checked per instance at 1e-9; n = 2 recomputed by the model), IEEE rounding "
             "(modelled, not verified), the harness. The model variant (PHS list restored from allPhsPtrs_; early false when no PHS can improve) is selected from the source of the tree under test; "
-            "F36 and F130 are fixed in /repo, a revert of either is a VIOLATION. Open finding F450 (compound space with a single real-vector subspace: createFullState overwrites the "
-            "informed sample, getInformedMeasure counts the subspace twice): reported as KNOWN-FINDING; witness theorem single_subspace_compound_overwritten_fails; the repaired glue is "
-            "proved sound (created_state_roundtrip_repaired) and selected automatically once notes/C15-fix-F450.diff is applied.",
+            "F36 and F130 are fixed in /repo, a revert of either is a VIOLATION. F450 (compound space with a single real-vector subspace: informed sample overwritten, subspace measure counted twice) is fixed in /repo (1d61cd7e5); the model follows, "
+            "the old glue is kept as createFullStateOld for the witness. Open finding F451 (low severity, outside the quantifier): an SE-typed compound whose two subspaces are both "
+            "rotations is accepted; witness se_typed_two_rotations_accepted_fails, repaired classification proved (classification_repaired_informed_is_real_vector) and selected "
+            "automatically once notes/C15-fix-F451.diff is applied.",
     "technique": "Lean 4 proof (inner-product-space geometry, determinant/Haar measure of a linear image, Gamma recurrence, finite mixing argument, induction "
                  "over the sampler loops) + differential correspondence incl. RNG-twin replay + sampled-output oracle",
 }
